@@ -60,7 +60,29 @@ SCENARIOS = [
      {'t1': S(0, 1), 't2': S(1, 3), 't3': S(2, 1, 0, 1, rpn=1, prio=1)}, ['t3']),
     ('mem-gpu',   R.Layout(2, 2, 2, 0, 3),
      {'t1': S(2, 1, 2, mem=2), 't2': S(1, 1, 3), 't3': S(1, 2, 1, mem=1, prio=2)}, ['t1']),
+    ('nodes3',    R.Layout(3, 1, 0, 0, 0),
+     {'t1': S(1, 1), 't2': S(1, 1, prio=1), 't3': S(2, 1)}, ['t2']),
 ]
+
+# directed environment schedules (scenario, script): interleavings worth having
+# every time - a _SCHEDULE bulk and a _CANCEL item for a *waiting* task drained in
+# the same pass of _schedule_incoming, completions racing with cancels
+def directed():
+    out = []
+    for k in range(5, 16):
+        out.append(('lfs-prio', [(1, ('arrive', ['t3'])), (1, ('arrive', ['t2'])),
+                                 (k, ('arrive', ['t1'])), (k, ('cancelc', ['t2'])), (k, ('flush',))]))
+        out.append(('nodes3',   [(1, ('arrive', ['t1', 't2'])), (2, ('arrive', ['t3'])),
+                                 (k, ('complete', 't1')), (k + 2, ('cancelc', ['t3'])),
+                                 (k + 2, ('flush',)), (k + 3, ('complete', 't2'))]))
+        out.append(('nodes3',   [(1, ('arrive', ['t1', 't2'])), (3, ('arrive', ['t3'])),
+                                 (k, ('complete', 't1')), (k + 6, ('complete', 't2'))]))
+        out.append(('nodes3',   [(1, ('arrive', ['t1', 't2'])), (3, ('arrive', ['t3'])),
+                                 (k, ('complete', 't2')), (k + 6, ('complete', 't1'))]))
+        out.append(('colo',     [(1, ('arrive', ['t1'])), (1, ('arrive', ['t3'])),
+                                 (k, ('cancelc', ['t3'])), (k, ('arrive', ['t2'])), (k, ('flush',)),
+                                 (k + 4, ('complete', 't1'))]))
+    return out
 
 
 # ------------------------------------------------------------------------------
@@ -244,26 +266,54 @@ def run(chk, tier, seed):
             chk.add_tlc(res, 'simulate:' + name)
             for f in sorted(glob.glob(os.path.join(dump, 'tr_*'))):
                 script = script_from_behaviour(f)
-                rig = ScriptRig(lay, shapes, script=list(script), seed=0, cancelable=canc)
-                tr  = rig.run()
-                traces.append((lay, tr))
-                inputs.append({'kind': 'tlc-behaviour', 'scenario': name, 'script': script,
-                               'layout': lay.__dict__, 'shapes': shapes})
+                # each behaviour drives the shipped default (scattered) and the
+                # non-scattered mode (safety clauses only)
+                for sc in (True, False):
+                    rig = ScriptRig(lay, shapes, script=list(script), seed=0, cancelable=canc,
+                                    scattered=sc)
+                    tr  = rig.run()
+                    traces.append((lay, tr))
+                    inputs.append({'kind': 'tlc-behaviour', 'scenario': name, 'script': script,
+                                   'layout': lay.__dict__, 'shapes': shapes, 'scattered': sc})
         finally:
             shutil.rmtree(dump, ignore_errors=True)
+
+    # ---- 3b. directed schedules ---------------------------------------------------
+    for sname, script in directed():
+        _, lay, shapes, canc = [x for x in SCENARIOS if x[0] == sname][0]
+        for sc in (True, False):
+            rig = ScriptRig(lay, shapes, script=list(script), seed=0, cancelable=canc, scattered=sc)
+            tr  = rig.run()
+            traces.append((lay, tr))
+            inputs.append({'kind': 'tlc-behaviour', 'scenario': sname, 'script': script,
+                           'layout': lay.__dict__, 'shapes': shapes, 'scattered': sc})
 
     # ---- 4. seeded random environments, larger layouts -------------------------
     nrand = 300 if quick else 6000
     for i in range(nrand):
         lay, shapes, canc = random_case(rng)
         s   = rng.randrange(10 ** 9)
-        sc  = rng.random() < 0.85
+        sc  = rng.random() < 0.65
         pe  = rng.choice([0.1, 0.25, 0.4])
         rig = R.SchedRig(lay, shapes, seed=s, cancelable=canc, scattered=sc, p_env=pe)
         tr  = rig.run()
         traces.append((lay, tr))
         inputs.append({'kind': 'random', 'seed': s, 'layout': lay.__dict__, 'shapes': shapes,
                        'cancelable': canc, 'scattered': sc, 'p_env': pe})
+
+    # ---- 4b. fragmentation workloads: many small nodes, mixed rank counts, both
+    #          node-iteration modes (continuity restarts in the non-scattered search)
+    FRAG = [R.Layout(4, 1, 0, 0, 0), R.Layout(3, 2, 0, 0, 0), R.Layout(4, 2, 0, 0, 0),
+            R.Layout(3, 1, 0, 0, 0)]
+    for i in range(100 if quick else 2000):
+        lay = rng.choice(FRAG)
+        shapes = {'t%d' % (j + 1): S(rng.choice([1, 1, 1, 2, 2, 3]), 1, prio=rng.choice([0, 0, 1]))
+                  for j in range(rng.randint(4, 7))}
+        s, sc, pe = rng.randrange(10 ** 9), (i % 4 == 0), rng.choice([0.1, 0.25])
+        rig = R.SchedRig(lay, shapes, seed=s, cancelable=[], scattered=sc, p_env=pe)
+        traces.append((lay, rig.run()))
+        inputs.append({'kind': 'random', 'seed': s, 'layout': lay.__dict__, 'shapes': shapes,
+                       'cancelable': [], 'scattered': sc, 'p_env': pe})
 
     # ---- 5. validate all traces with the monitor, grouped by layout -------------
     groups = {}
@@ -306,7 +356,8 @@ def replay(chk, obj):
         rig = R.SchedRig(lay, inp['shapes'], seed=inp['seed'], cancelable=inp['cancelable'],
                          scattered=inp['scattered'], p_env=inp.get('p_env', 0.35))
     else:
-        rig = ScriptRig(lay, inp['shapes'], script=[(k, tuple(a)) for k, a in inp['script']])
+        rig = ScriptRig(lay, inp['shapes'], script=[(k, tuple(a)) for k, a in inp['script']],
+                        scattered=inp.get('scattered', True))
     tr = rig.run()
     res, st = tracecheck.validate('AgentSched', 'AgentSchedTrace', lay.cfg_constants(), [tr])
     chk.traces += 1
